@@ -281,6 +281,44 @@ def project_cfg(cinco, cfg, root=None):
     return {"t": "cfg", "vals": vals, "dflt": sorted(dflt), "dyn": dyn}
 
 
+def read_only_queries(cinco, cfg, path=()):
+    """The library's read-only entry points, called on a configuration between operations.  In the
+    specification they are stuttering steps (Query / CheckCollect leave the state unchanged), so
+    calling them must not be observable - and it warms every cache or memo the library may keep.
+    Returns a description of an inconsistency between two ways of reading the same value, or None."""
+    try:
+        cfg.to_tree()
+    except Exception:  # noqa  (a state that cannot be rendered, e.g. no key file: nothing to compare)
+        pass
+    try:
+        cinco.asdict(cfg)
+        cfg.validate(collect_errors=True)
+    except Exception:  # noqa
+        pass
+    problem = None
+    for key, value in list(cfg):
+        try:
+            via_item = cfg[key]
+            via_attr = getattr(cfg, key)
+        except Exception as exc:  # noqa
+            return "reading %r raised %s" % (".".join(path + (key,)), type(exc).__name__)
+        if via_item is not via_attr and via_item != via_attr:
+            return "config[%r] differs from attribute access" % ".".join(path + (key,))
+        if key not in cfg:
+            return "%r in config is False" % ".".join(path + (key,))
+        if isinstance(value, cinco.Config):
+            for sub, _ in list(value):
+                dotted = key + "." + sub
+                try:
+                    a, b = cfg[dotted], getattr(value, sub)
+                except Exception as exc:  # noqa
+                    return "reading %r raised %s" % (dotted, type(exc).__name__)
+                if a is not b and a != b:
+                    return "config[%r] differs from chained attribute access" % ".".join(path + (dotted,))
+            problem = problem or read_only_queries(cinco, value, path + (key,))
+    return problem
+
+
 def canon_state(x):
     """Normal form of a specification state read back from TLC's JSON."""
     if isinstance(x, dict):
@@ -405,6 +443,7 @@ class World:
             st = init["cfgs"][n]
             if st.get("t") == "cfg":
                 self.cfgs[n] = self.schema()
+                read_only_queries(cinco, self.cfgs[n])
             else:
                 self.cfgs[n] = None
 
@@ -418,7 +457,14 @@ class World:
     def observe(self):
         if self.plaintexts is not None:
             KNOWN_PLAINTEXTS[:] = sorted(self.plaintexts)
-        return {"cfgs": {n: (project_cfg(self.cinco, c, self.root) if c is not None else {"t": "none"}) for n, c in self.cfgs.items()}}
+        out = {}
+        for n, c in self.cfgs.items():
+            if c is None:
+                out[n] = {"t": "none"}
+                continue
+            why = read_only_queries(self.cinco, c)
+            out[n] = project_cfg(self.cinco, c, self.root) if why is None else {"t": "inconsistent-reads", "why": why}
+        return {"cfgs": out}
 
     def _sub_schema(self, p, k):
         s = self.schema
